@@ -196,8 +196,23 @@ func newC20Node(cfg c20Config, pools []*fx.Pool) *c20Node {
 		n.unpub = &c20Unpub{ops: map[string][]*operation.AnchoredOperation{}}
 		tpOpts = append(tpOpts, txnprocessor.WithUnpublishedOperationStore(n.unpub, allTypes))
 	}
+	// "|tight": the operation size limit is exactly the size of the largest scripted request (every request is accepted; the
+	// long-form DID of a create that fills the limit is longer than the limit, being its base64url encoding)
+	tight := 0
+	if strings.Contains(cfg.Name, "|tight") {
+		for d, script := range cfg.Scripts {
+			for _, id := range script {
+				if l := len(n.opFor(d, id).Req); l > tight {
+					tight = l
+				}
+			}
+		}
+	}
 	mk := func(genesis uint64, second bool) *fx.Version {
 		p := fx.DefaultProtocol()
+		if tight > 0 {
+			p.MaxOperationSize = uint(tight)
+		}
 		p.GenesisTime = genesis
 		p.MaxOperationCount = cfg.MaxCount
 		if !second {
@@ -652,6 +667,8 @@ func c20(r *hx.Run) {
 		{"DC|nounpub|1ver", [][]string{{"C", "R01~w", "V01"}, {"C", "D0~w", "D0"}}, false, false, 2},
 		// V0>r0: after a recover, an update whose next update commitment is the commitment the recover revealed
 		{"GA|nounpub|1ver", [][]string{{"C", "R01", "V0>r0"}, {"C", "U01"}}, false, false, 2},
+		// every scripted request fits the operation-size limit exactly or nearly (the creates are the largest requests)
+		{"CC|nounpub|1ver|tight", [][]string{{"C"}, {"C", "U01"}}, false, false, 2},
 	}
 	depth := 8
 	if r.Tier == "thorough" {
